@@ -47,6 +47,11 @@ def struct_eq(a, b):
 
 
 def clone_val(v):
+    if isinstance(v, It):
+        # cloning an iterator: both copies continue independently from the current position
+        items = list(v.gen)
+        v.gen = iter(items)
+        return It(iter(list(items)))
     if isinstance(v, Adt):
         return Adt(v.name, v.variant, [clone_val(f) for f in v.fields])
     if isinstance(v, RString):
@@ -57,7 +62,9 @@ def clone_val(v):
         m = PyMap(v.kind)
         m.entries = [[clone_val(k), clone_val(x)] for k, x in v.entries]
         return m
-    return v   # Ref (Rc / &), str, int, XNode, Url
+    if isinstance(v, Url):
+        return Url(v.s)
+    return v   # Ref (Rc / &), str, int, XNode
 
 
 class SMI(Machine):
@@ -310,6 +317,50 @@ class SMI(Machine):
                 return It(iter(list(d0.upper() if f == 'to_uppercase' else d0.lower())))
             if f == 'is_digit':
                 return d0 in '0123456789abcdefghijklmnopqrstuvwxyz'[:args[1]] or d0.lower() in '0123456789abcdefghijklmnopqrstuvwxyz'[:args[1]]
+        mord = re.match(r'<([iu](?:8|16|32|64|128|size)|char) as Ord>::(min|max|clamp|cmp)$', c)
+        if mord and all(isinstance(deref(a), (int, str)) for a in args):
+            vals = [deref(a) for a in args]
+            if mord.group(2) == 'min':
+                return min(vals[0], vals[1])
+            if mord.group(2) == 'max':
+                return max(vals[0], vals[1])
+            if mord.group(2) == 'clamp':
+                return max(vals[1], min(vals[0], vals[2]))
+            return Adt('Ordering3', 0, [(vals[0] > vals[1]) - (vals[0] < vals[1])])
+        if c in ('std::cmp::min', 'std::cmp::max', 'core::cmp::min', 'core::cmp::max') and all(isinstance(deref(a), int) for a in args):
+            return (min if meth == 'min' else max)(deref(args[0]), deref(args[1]))
+        if isinstance(d0, Url):
+            from urllib.parse import urlsplit, urlunsplit
+            parts = urlsplit(d0.s)
+            if meth in ('set_fragment', 'set_query'):
+                v = deref(args[1])
+                val = None if (isinstance(v, Adt) and v.variant == 0) else self.cstr(v.fields[0] if isinstance(v, Adt) else v)
+                if meth == 'set_fragment':
+                    parts = parts._replace(fragment=val or '')
+                    d0.s = urlunsplit(parts) + ('#' if val == '' else '')
+                else:
+                    parts = parts._replace(query=val or '')
+                    d0.s = urlunsplit(parts)
+                    if val == '':
+                        d0.s = d0.s.replace('#', '?#', 1) if '#' in d0.s else d0.s + '?'
+                return ()
+            if meth == 'query':
+                return SOME(parts.query) if '?' in d0.s.split('#')[0] else NONE()
+            if meth == 'fragment':
+                return SOME(parts.fragment) if '#' in d0.s else NONE()
+            if meth == 'path':
+                return parts.path
+            if meth == 'scheme':
+                return parts.scheme
+            if meth == 'host_str':
+                return SOME(parts.hostname) if parts.hostname else NONE()
+            if meth == 'port':
+                return SOME(parts.port) if parts.port else NONE()
+            if meth in ('as_str', 'as_ref', 'to_string'):
+                return d0.s if meth != 'to_string' else RString(d0.s)
+            if meth == 'join':
+                r = native.call('url', __import__('urllib.parse').parse.urljoin(d0.s, self.cstr(args[1])))
+                return OK(Url(r)) if r is not None else ERR(Opaque('url::ParseError'))
         if c in ('log::max_level', 'max_level'):
             return Adt('LevelFilter', 0, [])       # no logger installed: logging is off
         if c.startswith('log::__private_api::'):
@@ -1392,7 +1443,10 @@ class SMI(Machine):
         if meth == 'split_at':
             k = args[1]
             b = s.encode()
-            return [b[:k].decode(), b[k:].decode()]
+            try:
+                return [b[:k].decode(), b[k:].decode()]
+            except UnicodeDecodeError:
+                raise Panic('byte index is not a char boundary')
         if meth == 'rfind':
             i = s.rfind(self.cstr(args[1]))
             return NONE() if i < 0 else SOME(len(s[:i].encode()))
@@ -1432,7 +1486,14 @@ class SMI(Machine):
                 if meth == 'get':
                     return NONE()
                 raise Panic('str index out of range')
-            return b[lo:hi].decode() if meth == 'index' else SOME(b[lo:hi].decode())
+            try:
+                piece = b[lo:hi].decode()
+                b[:lo].decode()
+            except UnicodeDecodeError:
+                if meth == 'get':
+                    return NONE()
+                raise Panic('byte index is not a char boundary')
+            return piece if meth == 'index' else SOME(piece)
         if meth == 'find':
             i = s.find(self.cstr(args[1]))
             return NONE() if i < 0 else SOME(len(s[:i].encode()))
